@@ -170,6 +170,13 @@ RestartE2E(followed, after, s) ==
   /\ followed /\ after <= s + 1
   /\ UNCHANGED avars
 
+\* End to end (a client reading over UDP, whatever the options it was set up with): what reaches the
+\* packet callback has strictly increasing sequence numbers - a datagram that arrives twice is
+\* delivered once, one that arrives late by less than the buffer size is delivered in its place
+OrderE2E(increasing, ndlv, sent) ==
+  /\ increasing /\ ndlv = sent
+  /\ UNCHANGED avars
+
 AInv ==
   /\ \A p \in pending : Fwd(last, p) \in 1..Half
   /\ negRun <= S
